@@ -587,7 +587,43 @@ mutual
     | v :: vs => wf σ ε v && !isNoValue v && !isPosVal v && wfElems σ ε vs
 end
 
-/-! ### re-annotation: two values that `Encode` cannot tell apart -/
+/-! ### re-annotation: `Pos()`/`End()` are functions of the node -/
+
+mutual
+  /-- forget the derived `Pos()`/`End()` annotations -/
+  def forget : Val → Val
+    | .ptr v => .ptr (forget v)
+    | .iface v => .iface (forget v)
+    | .slice elems => .slice (forgetL elems)
+    | .struct name _ fields => .struct name none (forgetF fields)
+    | v => v
+  def forgetL : List Val → List Val
+    | [] => []
+    | v :: rest => forget v :: forgetL rest
+  def forgetF : List (String × Val) → List (String × Val)
+    | [] => []
+    | (k, v) :: rest => (k, forget v) :: forgetF rest
+end
+
+/-- the `Pos()`/`End()` methods: a function of the struct type and its (un-annotated) fields;
+    `none` for structs that are not nodes -/
+abbrev Ann := String → List (String × Val) → Option (Pos × Pos)
+
+mutual
+  /-- what `Encode` sees of a Go tree: every struct with the results of its `Pos()`/`End()` -/
+  def annotate (ann : Ann) : Val → Val
+    | .ptr v => .ptr (annotate ann v)
+    | .iface v => .iface (annotate ann v)
+    | .slice elems => .slice (annotateL ann elems)
+    | .struct name _ fields => .struct name (ann name (forgetF fields)) (annotateF ann fields)
+    | v => v
+  def annotateL (ann : Ann) : List Val → List Val
+    | [] => []
+    | v :: rest => annotate ann v :: annotateL ann rest
+  def annotateF (ann : Ann) : List (String × Val) → List (String × Val)
+    | [] => []
+    | (k, v) :: rest => (k, annotate ann v) :: annotateF ann rest
+end
 
 /-- what `encodePos` keeps of a position -/
 def posKey (p : Pos) : Option (Nat × Nat × Nat) :=
@@ -598,31 +634,21 @@ def peKey : Option (Pos × Pos) → Option (Option (Nat × Nat × Nat) × Option
   | none => none
 
 mutual
-  /-- `agree w v`: same value up to positions that `encodePos` drops anyway, and the `Pos()`/`End()`
-      annotations of `w` are encoded like those of `v`. -/
-  def agree : Val → Val → Bool
-    | .pos p, .pos q => decide (posKey p = posKey q)
-    | .bool a, .bool b => a == b
-    | .str a, .str b => decide (a = b)
-    | .uint b o n, .uint b' o' n' => decide (b = b') && decide (o = o') && decide (n = n')
-    | .nil, .nil => true
-    | .ptr a, .ptr b => agree a b
-    | .inil, .inil => true
-    | .iface a, .iface b => agree a b
-    | .snil, .snil => true
-    | .slice as, .slice bs => agreeL as bs
-    | .struct n pe fs, .struct n' pe' fs' =>
-      decide (n = n') && decide (peKey pe = peKey pe') && agreeF fs fs'
-    | .other, .other => true
-    | _, _ => false
-  def agreeL : List Val → List Val → Bool
-    | [], [] => true
-    | a :: as, b :: bs => agree a b && agreeL as bs
-    | _, _ => false
-  def agreeF : List (String × Val) → List (String × Val) → Bool
-    | [], [] => true
-    | (k, a) :: as, (k', b) :: bs => decide (k = k') && agree a b && agreeF as bs
-    | _, _ => false
+  /-- `Pos()`/`End()` of every node are encoded alike before and after the round trip (clearing
+      recovered positions does not move the valid `Pos()`/`End()` of any node) -/
+  def peStable (ann : Ann) : Val → Prop
+    | .ptr v => peStable ann v
+    | .iface v => peStable ann v
+    | .slice elems => peStableL ann elems
+    | .struct name _ fields =>
+      peKey (ann name (canonF fields)) = peKey (ann name (forgetF fields)) ∧ peStableF ann fields
+    | _ => True
+  def peStableL (ann : Ann) : List Val → Prop
+    | [] => True
+    | v :: rest => peStable ann v ∧ peStableL ann rest
+  def peStableF (ann : Ann) : List (String × Val) → Prop
+    | [] => True
+    | (_, v) :: rest => peStable ann v ∧ peStableF ann rest
 end
 
 end ShVerif.C15
